@@ -43,6 +43,8 @@ func init() {
 		MinRuns:    50,
 		Exec:       runC10,
 		PanicClass: kit.PanicInRepo("state-panic"),
+		// reach probes every batch is expected to hit (listed in the evidence as probes_never_hit otherwise)
+		ExpectedProbes: []string{"commit-spans-more-than-3-disk-writes", "copy-checked-after-original-moved", "copy-of-copy", "copy-same-ops", "copy@block-iroot", "copy@commit", "copy@finalise", "copy@iroot", "copy@mid-transaction", "crash-with-some-but-not-all-new-roots-on-disk", "rebuilt-permuted", "rebuilt-regrouped"},
 	})
 }
 
